@@ -221,6 +221,9 @@ struct Opts {
     int max_idx{3};                      // pool-indexed events address only the first max_idx non-filler pool txs (txid order)
     int max_inval{2}, max_time{1};
     bool prio_minus{true}, prio_next{true}; // P:<i>:- and P:n:+ enabled
+    // state-based guards that keep small tiers small: special coins / packages only while the pool holds no menu tx,
+    // time jumps only with a non-empty pool, reorgs only when they can touch the pool or a mined block
+    bool guarded{false};
     bool test_before_submit{false};      // C28: run test_accept first, in the same transition
     int depth_quick{3}, depth_thorough{4};
     int split{1};
@@ -724,7 +727,17 @@ struct Sim {
         if (o.has("X")) cand.push_back("X");
         if (o.has("T")) cand.push_back("T");
         std::vector<std::string> ev;
-        for (auto& c : cand) if (Build(c, s).kind != Act::NONE) ev.push_back(c);
+        bool menu_tx_in_pool = false;
+        for (auto& t : s.txs) if (!fillers.count(t.tx->GetHash())) menu_tx_in_pool = true;
+        for (auto& c : cand) {
+            if (o.guarded) {
+                std::string k = SplitLabel(c)[0];
+                if (menu_tx_in_pool && (k == "NY" || k == "NL" || k == "NQ" || k == "PK" || k == "PE" || k == "D")) continue;
+                if (!menu_tx_in_pool && k == "T") continue;
+                if (!menu_tx_in_pool && s.height <= base_height && (k == "I" || k == "X")) continue;
+            }
+            if (Build(c, s).kind != Act::NONE) ev.push_back(c);
+        }
         return ev;
     }
 
